@@ -96,7 +96,14 @@ func (c *Ctx) reachable(roots []*ssa.Function) map[*ssa.Function]bool {
 		seen[f] = true
 		if n := cg.Nodes[f]; n != nil {
 			for _, e := range n.Out {
-				stack = append(stack, e.Callee.Func)
+				g := e.Callee.Func
+				if g != nil && g.Parent() != nil && !c.inModule(f) && c.inModule(g) {
+					// a function literal of the module called from library code (sync.Once, sort, iterators):
+					// the call graph merges all literals that flow into such a call site; a literal is
+					// reachable when the function that makes it is (its AnonFuncs are added below)
+					continue
+				}
+				stack = append(stack, g)
 			}
 		}
 		for _, an := range f.AnonFuncs {
@@ -515,6 +522,12 @@ func (c *Ctx) otherPanics(fns []*ssa.Function) {
 						}
 					}
 				case *ssa.Panic:
+					if bc := x.Block().Comment; strings.HasPrefix(bc, "rangefunc.") || bc == "yield-invalid" {
+						// part of the lowering of range-over-func: raised only when the iterator function
+						// breaks its contract (calls yield again after it returned false); the iterators
+						// used are the standard library's
+						continue
+					}
 					c.fail("PANIC-EXPLICIT", fname, "panic("+c.valShape(x.X)+")", x.Pos(), "an explicit panic is reachable from a reader entry point")
 				case *ssa.MapUpdate:
 					c.mapUpdateObligation(fname, x)
@@ -758,7 +771,10 @@ func (c *Ctx) mapNonNil(v ssa.Value, at ssa.Instruction, seen map[ssa.Value]bool
 		}
 		return n > 0
 	case *ssa.Phi:
-		for _, e := range x.Edges {
+		for i, e := range x.Edges {
+			if nonNilOnEdge(e, x.Block().Preds[i], x.Block()) {
+				continue // `if m == nil { m = make(…) }`: on the other edge the test said non-nil
+			}
 			if !c.mapNonNil(e, at, seen) {
 				return false
 			}
@@ -1743,4 +1759,40 @@ func dependsOnParam(v ssa.Value, f *ssa.Function, skip *ssa.Parameter) bool {
 		return false
 	}
 	return walk(v)
+}
+
+// nonNilOnEdge: control takes the edge pred → succ only when v != nil was tested (the test ends
+// pred, or dominates it).
+func nonNilOnEdge(v ssa.Value, pred, succ *ssa.BasicBlock) bool {
+	isNilTest := func(cv ssa.Value, truth bool) bool {
+		bo, ok := cv.(*ssa.BinOp)
+		if !ok || (bo.Op != token.EQL && bo.Op != token.NEQ) {
+			return false
+		}
+		var other ssa.Value
+		switch {
+		case bo.X == v:
+			other = bo.Y
+		case bo.Y == v:
+			other = bo.X
+		default:
+			return false
+		}
+		if !isNilConst(other) {
+			return false
+		}
+		// v != nil holds when (v == nil) is false or (v != nil) is true
+		return (bo.Op == token.EQL) != truth
+	}
+	if ifi, ok := pred.Instrs[len(pred.Instrs)-1].(*ssa.If); ok && pred.Succs[0] != pred.Succs[1] {
+		if isNilTest(ifi.Cond, pred.Succs[0] == succ) {
+			return true
+		}
+	}
+	for _, cd := range domConds(pred) {
+		if isNilTest(cd.v, cd.truth) {
+			return true
+		}
+	}
+	return false
 }
